@@ -74,13 +74,22 @@ func newBasicAuth(cfg config.BasicAuth) (AuthScheme, error) {
 	}, nil
 }
 
-func (b *basic) Authorized(request *http.Request, response http.ResponseWriter) bool {
+func (b *basic) Authorized(request *http.Request, response http.ResponseWriter) (authorized bool) {
 	user, password, ok := request.BasicAuth()
 
 	if !ok {
 		response.Header().Set("WWW-Authenticate", "Basic realm=\""+b.realm+"\"")
 		return false
 	}
+
+	// The htpasswd library panics on some malformed entries, e.g. a crypt-SHA
+	// hash with a non-numeric rounds component. Such an entry matches nothing.
+	defer func() {
+		if r := recover(); r != nil {
+			log.Printf("[WARN] Error matching the htpasswd entry of user %q: %v", user, r)
+			authorized = false
+		}
+	}()
 
 	return b.secrets.Match(user, password)
 }
